@@ -8,6 +8,7 @@ CONSTANTS
   BatchSet = {2}
   PathSet = {"async"}
   MaxPauses = 0
+  MaxRestarts = 0
   Kinds = {"waive", "stale", "equal", "future"}
   Pols = {"leader"}
   Mut = "after_write"
